@@ -176,11 +176,17 @@ def finish(pid, tier, seed, prof, recs, libs, timeout, known, t0, a, extra_cov=N
     nontriv = int(total.get("nontrivial", 0))
     cov = {"evaluations": len(recs), "distinct_nontrivial": nontriv, "rule": prof.RULE, "samples": samples,
            "simulated_lifetimes": total.get("lifetimes"), "engine_steps": total.get("engine_steps"),
+           "simulated_engine_seconds_SI": total.get("simulated_engine_seconds"),
+           "virtual_wall_clock_ms_consumed_by_run": total.get("virtual_clock_ms"),
+           "run_slices": total.get("run_slices"), "run_slices_ended_by_clock": total.get("run_slices_ended_by_clock"),
            "lifetimes_per_hour": int(3600 * (total.get("lifetimes") or 0) / max(wall, 1e-9)),
            "cases_per_hour": int(3600 * len(recs) / max(wall, 1e-9)),
            "faults_fired": total.get("faults", {}), "probes": {k: v for k, v in total.items()
                                                               if k not in ("faults", "lifetimes", "cases", "nontrivial",
-                                                                           "engine_steps", "schedules", "kinds")},
+                                                                           "engine_steps", "schedules", "kinds",
+                                                                           "simulated_engine_seconds", "virtual_clock_ms",
+                                                                           "run_slices", "run_slices_ended_by_clock",
+                                                                           "mlife_pairs", "g")},
            "distinct_schedule_signatures": len(total.get("schedules", ())), "kinds": total.get("kinds"),
            "real_components": ["strengths Python front end (RDScript, RDSystem, LibRDEngine, simulate_script, engine_collection factories)",
                                "native engine built from /repo working tree"],
